@@ -17,7 +17,7 @@ func (f *Frame) lookupLocal(name string, at *ssa.BasicBlock, st *State) (Val, bo
 	}
 	spilled := false
 	if at != nil {
-		for _, d := range f.locals[name] {
+		for _, d := range f.defsOf(name) {
 			if d.addr {
 				spilled = true // the parameter lives in a local variable that the body may assign: use its current value
 			}
@@ -58,7 +58,7 @@ func (f *Frame) lookupLocal(name string, at *ssa.BasicBlock, st *State) (Val, bo
 	// skipped): when it has exactly one definition, that value is used. Its symbol exists whether or not the block
 	// ran; a clause that mentions it has to be guarded by something that implies the block ran (only checked
 	// clauses — asserts, where-defined postconditions — ever look such names up).
-	if defs := f.locals[name]; f.relaxedLocals && len(defs) >= 1 && !defs[0].addr {
+	if defs := f.defsOf(name); f.relaxedLocals && len(defs) >= 1 && !defs[0].addr {
 		same := true
 		for _, d := range defs {
 			if d.val != defs[0].val || d.addr {
@@ -73,8 +73,28 @@ func (f *Frame) lookupLocal(name string, at *ssa.BasicBlock, st *State) (Val, bo
 }
 
 // lookupDominating: nearest dominating phi / definition of a source variable at the entry of block `at`.
+// spilledVar: the variable lives in memory (its address is taken): its value at any point is what its cell holds in the
+// state of that point, whatever value-level debug references say about individual assignments.
+func (f *Frame) spilledVar(name string, st *State) (Val, bool) {
+	for _, d := range f.defsOf(name) {
+		if !d.addr {
+			continue
+		}
+		v, ok := f.vals[d.val]
+		if !ok || st == nil {
+			return Val{}, false
+		}
+		el := d.val.Type().Underlying().(*types.Pointer).Elem()
+		return Val{T: el, S: f.c.load(st, f.c.ptrOf(v), el)}, true
+	}
+	return Val{}, false
+}
+
 func (f *Frame) lookupDominating(name string, at *ssa.BasicBlock, st *State) (Val, bool) {
 	c := f.c
+	if v, ok := f.spilledVar(name, st); ok {
+		return v, true
+	}
 	// walk the dominator tree upwards
 	for b := at; b != nil; b = b.Idom() {
 		// phis of this block
@@ -97,7 +117,7 @@ func (f *Frame) lookupDominating(name string, at *ssa.BasicBlock, st *State) (Va
 		if b == at {
 			continue // definitions inside the block itself are after the program point (block entry)
 		}
-		defs := f.locals[name]
+		defs := f.defsOf(name)
 		for i := len(defs) - 1; i >= 0; i-- {
 			d := defs[i]
 			if d.block != b {
@@ -123,7 +143,10 @@ func (f *Frame) lookupDominating(name string, at *ssa.BasicBlock, st *State) (Va
 
 // lookupAtEnd resolves a name at the end of a block (for postconditions / asserts).
 func (f *Frame) lookupAtEnd(name string, b *ssa.BasicBlock, st *State) (Val, bool) {
-	defs := f.locals[name]
+	if v, ok := f.spilledVar(name, st); ok {
+		return v, true
+	}
+	defs := f.defsOf(name)
 	for i := len(defs) - 1; i >= 0; i-- {
 		d := defs[i]
 		if d.block != b {
@@ -602,7 +625,7 @@ func (e *Engine) verifyFunc(con *Contract) *FuncResult {
 			c.assume("pointer receivers and captured variables are non-nil")
 		}
 	}
-	for _, fv := range fn.FreeVars {
+	for i0, fv := range fn.FreeVars {
 		v := f.freshVal(fv.Type(), "fv_"+fv.Name())
 		f.vals[fv] = v
 		facts = append(facts, fmt.Sprintf("(not (= %s 0))", v.S), fmt.Sprintf("(<= %s %s)", v.S, st.watermark()))
@@ -611,6 +634,13 @@ func (e *Engine) verifyFunc(con *Contract) *FuncResult {
 		// captured variable: its value at entry is an input of the closure
 		el := fv.Type().Underlying().(*types.Pointer).Elem()
 		c.regIn(fv.Name(), Val{T: el, S: c.load(st, c.ptrOf(v), el)}, st, 0)
+		if capturedNeverReassigned(fn, i0) {
+			// nobody assigns the captured variable after the closure is created (syntactic: the enclosing function
+			// stores to it only before making the closure, every closure capturing it only loads it): unknown code
+			// leaves the variable's cell alone
+			c.localObjs = append(c.localObjs, localObj{ref: v.S, keys: c.heapKeysOfPtr(&Ptr{Root: v.S, Obj: el})})
+			c.assume("captured variable " + fv.Name() + " is never reassigned (syntactic check over the enclosing function and its closures)")
+		}
 	}
 	// distinct captured variables
 	for i := 0; i < len(fn.FreeVars); i++ {
@@ -621,6 +651,9 @@ func (e *Engine) verifyFunc(con *Contract) *FuncResult {
 		}
 	}
 	f.entry = st
+	for _, n := range c.trackedCalls() {
+		facts = append(facts, fmt.Sprintf("(= %s 0)", st.get(callsKey(n)))) // calls(N) counts within this activation
+	}
 	func() {
 		defer func() {
 			if r := recover(); r != nil {
@@ -866,3 +899,63 @@ func (c *FuncCtx) keyByName(name string) *HeapKey {
 }
 
 func calleeName0(con *Contract) string { return con.Func }
+
+// capturedNeverReassigned: free variable i of closure fn refers to a variable of the enclosing function that is
+// stored to only before any closure capturing it is created, and that every capturing closure only loads.
+func capturedNeverReassigned(fn *ssa.Function, i int) bool {
+	parent := fn.Parent()
+	if parent == nil {
+		return false
+	}
+	for _, b := range parent.Blocks {
+		for _, in := range b.Instrs {
+			mc, ok := in.(*ssa.MakeClosure)
+			if !ok || mc.Fn != ssa.Value(fn) || i >= len(mc.Bindings) {
+				continue
+			}
+			switch src := mc.Bindings[i].(type) {
+			case *ssa.Alloc:
+				if src.Referrers() == nil {
+					return false
+				}
+				for _, r := range *src.Referrers() {
+					switch x := r.(type) {
+					case *ssa.DebugRef, *ssa.UnOp:
+					case *ssa.Store:
+						// allowed only as the variable's initialisation: in the entry block, storing a parameter / constant
+						if x.Addr != ssa.Value(src) || x.Block() != parent.Blocks[0] {
+							return false
+						}
+					case *ssa.MakeClosure:
+						cf, _ := x.Fn.(*ssa.Function)
+						if cf == nil {
+							return false
+						}
+						for j, bnd := range x.Bindings {
+							if bnd == ssa.Value(src) && (j >= len(cf.FreeVars) || !readOnlyCapture(cf.FreeVars[j], 0)) {
+								return false
+							}
+						}
+					default:
+						return false
+					}
+				}
+				return true
+			case *ssa.FreeVar:
+				// captured again from an outer closure: read-only here and there
+				return readOnlyCapture(src, 0) && capturedNeverReassignedFV(parent, src)
+			}
+			return false
+		}
+	}
+	return false
+}
+
+func capturedNeverReassignedFV(fn *ssa.Function, fv *ssa.FreeVar) bool {
+	for i, x := range fn.FreeVars {
+		if x == fv {
+			return capturedNeverReassigned(fn, i)
+		}
+	}
+	return false
+}
